@@ -18,6 +18,8 @@ import threading
 import time
 
 repo, which, seed, nthreads, nmsgs, inject, out = sys.argv[1], sys.argv[2], int(sys.argv[3]), int(sys.argv[4]), int(sys.argv[5]), int(sys.argv[6]), sys.argv[7]
+# back-pressure: small kernel buffers on both ends and a peer that reads slowly, so that the reactor's writes are accepted partially
+SLOW = len(sys.argv) > 8 and sys.argv[8] == '1'
 sys.path.insert(0, repo)
 MAGIC = b'\xc1\x1c\xfa\xce'
 SIZES = [1, 13, 4095 - 13, 4096 - 13, 4097 - 13, 4096, 8193, 70000]
@@ -26,6 +28,8 @@ SIZES = [1, 13, 4095 - 13, 4096 - 13, 4097 - 13, 4096, 8193, 70000]
 def main():
     rng = random.Random(seed)
     srv = socket.socket()
+    if SLOW:
+        srv.setsockopt(socket.SOL_SOCKET, socket.SO_RCVBUF, 4096)
     srv.bind(('127.0.0.1', 0))
     srv.listen(1)
     port = srv.getsockname()[1]
@@ -37,7 +41,9 @@ def main():
         c.settimeout(0.5)
         while not state['closed']:
             try:
-                b = c.recv(65536)
+                if SLOW:
+                    time.sleep(0.0015)
+                b = c.recv(3000 if SLOW else 65536)
             except socket.timeout:
                 continue
             except OSError:
@@ -56,11 +62,12 @@ def main():
         from cassandra.io.twistedreactor import TwistedConnection as Cls
         targets = [Cls.push]
     Cls.initialize_reactor()
-    conn = Cls('127.0.0.1', port, protocol_version=4, connect_timeout=10)
+    kw = {'sockopts': [(socket.SOL_SOCKET, socket.SO_SNDBUF, 4096)]} if SLOW else {}
+    conn = Cls('127.0.0.1', port, protocol_version=4, connect_timeout=10, **kw)
     t0 = time.time()
     while which == 'twisted' and conn.transport is None and time.time() - t0 < 20:
         time.sleep(0.01)
-    res = {'reactor': which, 'seed': seed, 'threads': nthreads, 'msgs': nmsgs, 'inject': inject}
+    res = {'reactor': which, 'seed': seed, 'threads': nthreads, 'msgs': nmsgs, 'inject': inject, 'slow_peer': SLOW}
     if which == 'twisted' and conn.transport is None:
         res['harness_error'] = 'twisted connection did not connect'
         json.dump(res, open(out, 'w'))
